@@ -12,8 +12,13 @@ import vlib, props
 work = os.path.join(vlib.CACHE, "work", "setup")
 os.makedirs(os.path.join(vlib.CACHE, "work"), exist_ok=True)
 h = vlib.prepare(work, [])
-hs, s, out, _ = vlib.kani_codegen(h, ["p_c19"], os.path.join(vlib.CACHE, "target"))
-print("kani codegen ok: %d harnesses in %.0fs" % (len(hs), s))
+import concurrent.futures, time
+t0 = time.time()
+target = os.path.join(vlib.CACHE, "target")
+dirs = [target] + ["%s-g%02d" % (target, i) for i in range(10)]
+with concurrent.futures.ThreadPoolExecutor(max_workers=6) as ex:
+    list(ex.map(lambda d: vlib._codegen_one(h, ["p_c19"], d), dirs))
+print("kani build caches warmed (%d target dirs) in %.0fs" % (len(dirs), time.time() - t0))
 for rel in (False, True):
     vlib.build_replay(h, ["p_c19"], os.path.join(vlib.CACHE, "target-native"), rel)
 print("native replay builds ok")
